@@ -12,7 +12,8 @@ EXPLANATION = (
     "endpoint mutex exactly once (not in a loop), every I/O call on the guarded state takes its receiver "
     "from that guard, no path drops the guard before the last send/receive, and the guarded socket is "
     "reachable for I/O only through the mutex. Together: request and reply of one call form one "
-    "critical section, a second acquisition (self-deadlock) is impossible.")
+    "critical section, a second acquisition (self-deadlock) is impossible."
+    ' Also: (L5) no function that (transitively) locks the endpoint mutex is called while its guard is live; (L6) size pre-checks on the reply path agree with those made before the request was written (C08/S9); (L7-L9) C08/S3, C18/B1, C04/P4.')
 NOT_DECIDED = "Fairness/liveness of std::sync::Mutex, the peer's behaviour, actual interleavings."
 
 RAW_IO = {"send_with_fds", "recv_with_fds"}
